@@ -208,6 +208,8 @@ def _run_property(pid, tier, seed, keep=False):
     for line in kf_lines:
         out_lines.append(line)
     reported = 0
+    # report at most three; violations that come with a failing input first (stable order otherwise)
+    violations.sort(key=lambda v: 0 if v[1] else 1)
     for payload, found in violations[:3]:
         path = core.write_replay(pid, payload)
         out_lines.append("VIOLATION property=%s replay=%s%s" % (pid, path, "" if found else " no-failing-input-found"))
